@@ -6,6 +6,8 @@ CONFIG = {
     "required_theorems": [
         "idle_model_trace_ok", "accepted_trace_invariant", "clean_exclusive", "use_implies_cleaned",
         "clean_at_transitions", "no_start_after_failed_clean", "panic_only_without_users", "no_panic",
+        "dirs_model_trace_ok", "dir_removed_on_every_path", "last_close_empties_root", "failed_get_leaves_nothing",
+        "names_unique", "released_once",
     ],
     "harnesses": [
         {"cmd": "idle", "cases_quick": 400, "cases_thorough": 12000, "shards_quick": 8, "shards_thorough": 32, "race": True},
